@@ -75,9 +75,11 @@ def Prim.eq : Prim → Prim → EM Bool
   | .str a, .str b => .ok (a == b)
   | a, b => if a.isNumeric && b.isNumeric then .ok (a == b) else .error .type
 
+/-- integer powers; exponents beyond ±4096 are treated as arithmetic errors (the executable evaluator must terminate in
+    reasonable time and memory; no rule of the simplifier produces or relies on such an exponent) -/
 def ratPow (q : Rat) : Int → EM Rat
-  | .ofNat n => .ok (q ^ n)
-  | .negSucc n => if q = 0 then .error .arith else .ok ((q ^ (n + 1))⁻¹)
+  | .ofNat n => if n > 4096 then .error .arith else .ok (q ^ n)
+  | .negSucc n => if q = 0 || n > 4096 then .error .arith else .ok ((q ^ (n + 1))⁻¹)
 
 def isInt (q : Rat) : Bool := q.den == 1
 
